@@ -3,13 +3,19 @@ package basic
 import enc "github.com/named-data/ndnd/std/encoding"
 
 // NameTrie is a simple implementation of a Name trie (node/subtree) used for PIT and FIB.
-// It is slow due to the usage of String(). Subject to change when it explicitly affects performance.
+// Children are keyed by the TLV encoding of the component: different components never share a key.
+// (The URI form is not suitable: e.g. "seg=5" is printed for the values 05 and 00 05 alike.)
 type NameTrie[V any] struct {
 	val V
 	key string
 	par *NameTrie[V]
 	dep int
 	chd map[string]*NameTrie[V]
+}
+
+// trieKey is the key of a component in the children map of a node.
+func trieKey(c enc.Component) string {
+	return string(c.Bytes())
 }
 
 // Value returns the value stored in the node.
@@ -27,7 +33,7 @@ func (n *NameTrie[V]) ExactMatch(name enc.Name) *NameTrie[V] {
 	if len(name) <= n.dep {
 		return n
 	}
-	c := name[n.dep].String()
+	c := trieKey(name[n.dep])
 	if ch, ok := n.chd[c]; ok {
 		return ch.ExactMatch(name)
 	} else {
@@ -41,7 +47,7 @@ func (n *NameTrie[V]) PrefixMatch(name enc.Name) *NameTrie[V] {
 	if len(name) <= n.dep {
 		return n
 	}
-	c := name[n.dep].String()
+	c := trieKey(name[n.dep])
 	if ch, ok := n.chd[c]; ok {
 		return ch.PrefixMatch(name)
 	} else {
@@ -68,7 +74,7 @@ func (n *NameTrie[V]) MatchAlways(name enc.Name) *NameTrie[V] {
 	if len(name) <= n.dep {
 		return n
 	}
-	c := name[n.dep].String()
+	c := trieKey(name[n.dep])
 	ch, ok := n.chd[c]
 	if !ok {
 		ch = newTrieNode(c, n)
@@ -82,7 +88,7 @@ func (n *NameTrie[V]) FirstSatisfyOrNew(name enc.Name, pred func(V) bool) *NameT
 	if len(name) <= n.dep || pred(n.val) {
 		return n
 	}
-	c := name[n.dep].String()
+	c := trieKey(name[n.dep])
 	ch, ok := n.chd[c]
 	if !ok {
 		ch = newTrieNode(c, n)
